@@ -22,7 +22,7 @@ ASSUMPTIONS = ["legal operations = field ranges documented in api.py (addresses 
                "elision independence between registers of different groups is not examined (each group is run separately)"]
 OUTSIDE = ["operation lists longer than 2 (covered by the arbitrary-previous-value argument per register, not by unrolling)",
            "derived SHRAM layout registers (C15) and BLOCKDEP (C04)", "stride registers (derived from layout by get_strides)"]
-BOUNDS = {"groups": "ifm_addr, ofm_addr, weights (2 cores), biases, tiles, zero points, padding, kernel strides, regions, block config, pooling OFM scale, DMA",
+BOUNDS = {"groups": "ifm_addr, ofm_addr, weights (2 cores), biases, tiles, zero points, padding, regions, activation clamp (with/without scale), pooling OFM scale, DMA (lengths up to 2^38 on U65)",
           "accelerators": "Ethos_U55_128, Ethos_U65_512"}
 
 
@@ -117,15 +117,24 @@ def _set_group(V, op, group, tag, accel):
         op.ofm.region = V.choice("ofm_region_%s" % tag, [1, 2, 7])
     elif group == "depth":
         pass
+    elif group == "activation":
+        # explicit clamp given in real values; quantisation with and without a scale (a zero point without a scale is legal)
+        sc = V.choice("ofm_scale_kind_%s" % tag, [None, 0.5, 1.0])
+        op.ofm.quantization = a.NpuQuantization(sc, iv("ofm_zp", 0, 128))
+        op.activation = a.NpuActivation(a.NpuActivationOp.NONE_OR_RELU)
+        op.activation.min = 0.0
+        op.activation.max = V.choice("act_max_%s" % tag, [6.0, 1.0])
     elif group == "ofm_scale":
         op.rescale = ExplicitScaling(False, [iv("shift", 0, 63)], [iv("mult", 0, (1 << 32) - 1)])
     elif group == "dma":
         # regions: 0/1 = external memory, 259 = BASE_PTR_INDEX_MEM2MEM (the NPU's internal SHRAM)
-        ln = iv("len", 1, 4096)
         sreg = V.choice("src_region_%s" % tag, [0, 1, 259])
         dreg = V.choice("dst_region_%s" % tag, [1, 259])
-        return a.NpuDmaOperation(a.NpuAddressRange(sreg, iv("src", 0, 8192 if sreg == 259 else amax - (1 << 24)), ln),
-                                 a.NpuAddressRange(dreg, iv("dst", 0, 8192 if dreg == 259 else amax - (1 << 24)), ln))
+        internal = sreg == 259 or dreg == 259
+        # external-to-external transfers may be as long as the address space allows (more than 32 bits on U65)
+        ln = iv("len", 1, 4096 if internal else amax // 4)
+        return a.NpuDmaOperation(a.NpuAddressRange(sreg, iv("src", 0, 8192 if sreg == 259 else amax // 4), ln),
+                                 a.NpuAddressRange(dreg, iv("dst", 0, 8192 if dreg == 259 else amax // 4), ln))
     return op
 
 
@@ -180,6 +189,13 @@ def _expected(op, accel):
                 e[bn], e[ln] = L(op.biases[c].address), L(op.biases[c].length)
             elif c < ncores:
                 e[bn], e[ln] = L(op.biases[0].address), L(0)
+    if op.activation is not None and op.activation.min is not None:
+        q = op.ofm.quantization
+        sc = 1.0 if q.scale_f32 is None else q.scale_f32
+        lo = L(q.zero_point) + int(round(op.activation.min / sc))
+        hi = L(q.zero_point) + int(round(op.activation.max / sc))
+        e["NPU_SET_ACTIVATION_MIN"] = lo
+        e["NPU_SET_ACTIVATION_MAX"] = z3.If(hi > 255, 255, hi)
     if isinstance(op, a.NpuPoolingOperation) and op.rescale is not None:
         e["NPU_SET_OFM_SCALE"] = L(op.rescale.shift[0]) * (1 << 32) + L(op.rescale.multiplier[0])
     return e
@@ -309,7 +325,7 @@ FUNCS = {"pair": pair}
 
 def instances(tier, seed):
     out = []
-    conv_groups = ["ifm_addr", "ofm_addr", "weights", "biases", "tiles", "zp", "pad", "region"]
+    conv_groups = ["ifm_addr", "ofm_addr", "weights", "biases", "tiles", "zp", "pad", "region", "activation"]
     for accel in ("Ethos_U55_128", "Ethos_U65_512"):
         for gname in conv_groups:
             out.append(dict(key="pair/%s/conv/%s" % (accel, gname), fn="pair", params=dict(accel=accel, kind="conv", group=gname), weight=100))
